@@ -256,6 +256,32 @@ type vNode struct {
 	wake          chan struct{}
 	gate          chan struct{} // non-nil: every eth_getTransactionReceipt request waits here before it is answered (race op)
 	held          int           // receipt requests that have reached the closed gate
+	bnOK          int           // eth_getBlockByNumber requests answered with a block
+	tagLog        []string      // every eth_getBlockByNumber request in order: <tag>+ (answered) or <tag>- (failed)
+	step          bool          // step mode (rreobs op): every head / receipt / block-time request parks until the harness releases it
+	stepQ         []*vStepCall  // parked requests, in order of arrival
+}
+
+// one parked request of step mode
+type vStepCall struct {
+	name string
+	rel  chan struct{}
+}
+
+// stepWait (n.mu held): in step mode the request is parked - the harness decides in which state of the chain it is answered.
+func (n *vNode) stepWait(ctx context.Context, name string) {
+	if !n.step {
+		return
+	}
+	sc := &vStepCall{name: name, rel: make(chan struct{})}
+	n.stepQ = append(n.stepQ, sc)
+	n.poke()
+	n.mu.Unlock()
+	select {
+	case <-sc.rel:
+	case <-ctx.Done():
+	}
+	n.mu.Lock()
 }
 
 func (n *vNode) poke() {
@@ -272,6 +298,7 @@ func (e *vEth) GetBlockByNumber(ctx context.Context, tag string, full bool) (map
 	n.mu.Lock()
 	defer n.mu.Unlock()
 	defer n.poke()
+	n.stepWait(ctx, "hq:"+tag)
 	n.tags[tag]++
 	n.calls = append(n.calls, "hq:"+tag)
 	fail := n.bnErrAll
@@ -285,6 +312,7 @@ func (e *vEth) GetBlockByNumber(ctx context.Context, tag string, full bool) (map
 	if fail {
 		n.bnFails++
 		n.bnOKAfterFail = 0
+		n.tagLog = append(n.tagLog, tag+"-")
 		if n.bnNoNum {
 			return map[string]interface{}{"hash": ethCommon.Hash{}}, nil
 		}
@@ -292,8 +320,11 @@ func (e *vEth) GetBlockByNumber(ctx context.Context, tag string, full bool) (map
 	}
 	h, ok := n.heads[tag]
 	if !ok {
+		n.tagLog = append(n.tagLog, tag+"-")
 		return nil, errors.New("unknown block tag " + tag)
 	}
+	n.bnOK++
+	n.tagLog = append(n.tagLog, tag+"+")
 	return map[string]interface{}{"number": hexutil.EncodeUint64(h), "hash": vBlockHashFor(h, 0)}, nil
 }
 
@@ -305,6 +336,7 @@ func (e *vEth) BlockNumber(ctx context.Context) (hexutil.Uint64, error) {
 	n.mu.Lock()
 	defer n.mu.Unlock()
 	defer n.poke()
+	n.stepWait(ctx, "hq:eth_blockNumber")
 	n.calls = append(n.calls, "hq:eth_blockNumber")
 	if n.bnErrAll {
 		return 0, errors.New("scripted failure")
@@ -325,6 +357,7 @@ func (e *vEth) GetBlockByHash(ctx context.Context, h ethCommon.Hash, full bool) 
 	n.mu.Lock()
 	defer n.mu.Unlock()
 	defer n.poke()
+	n.stepWait(ctx, "bt")
 	n.calls = append(n.calls, "bt:"+hex.EncodeToString(h[:]))
 	a, ok := n.blocks[h]
 	if !ok || a.kind == "null" {
@@ -341,6 +374,7 @@ func (e *vEth) GetTransactionReceipt(ctx context.Context, h ethCommon.Hash) (int
 	n.mu.Lock()
 	defer n.mu.Unlock()
 	defer n.poke()
+	n.stepWait(ctx, "rc")
 	n.calls = append(n.calls, "rc:"+hex.EncodeToString(h[:]))
 	if g := n.gate; g != nil {
 		// the request has arrived; its answer is held back until the harness opens the gate (a slow RPC provider)
@@ -516,6 +550,9 @@ type vCase struct {
 	runGID   string // goroutine id of the current incarnation of Run
 	setC     chan *common.GuardianSet // nil in evm cases (guardian-set fetch cases: what the watcher hands to the processor)
 	gsNode   func(*vNode)             // guardian-set fetch cases: configures the node's guardian sets before Run starts
+	startPe  int    // the first startPe eth_getBlockByNumber requests of the case fail (the block poller's very first queries)
+	startNN  bool   // ... by answering a block without number instead of an RPC error
+	tried    string // block tags requested up to and including the first one that was answered, in order
 }
 
 // vGoID is the id of the calling goroutine (as printed in goroutine dumps).
@@ -603,6 +640,7 @@ func (c *vCase) start(gsErr bool) bool {
 	if c.gsNode != nil {
 		c.gsNode(n)
 	}
+	n.bnErrLeft, n.bnNoNum = c.startPe, c.startNN
 	c.setHeads(c.lat)
 	rs := rpc.NewServer()
 	c.rs = rs
@@ -653,16 +691,37 @@ func (c *vCase) start(gsErr bool) bool {
 		}
 		time.Sleep(50 * time.Microsecond)
 	}
-	// barrier: the block poller (a separate runnable) has read its initial block
+	// barrier: the block poller (a separate runnable) has read its initial block. A poller whose first query fails returns
+	// the error to the supervisor, which runs it again after its back-off (the only real-time wait of a start with startPe > 0).
+	if !c.waitFirstBlock(0) {
+		return false
+	}
+	c.flushed = true // nothing has enabled the poller yet
+	c.lastPub = c.watched()
+	return true
+}
+
+// waitFirstBlock: barrier for "the block poller has obtained its first block": a eth_getBlockByNumber request made after the
+// first `from` ones has been answered with a block. Sets c.tag (the tag of that request: the head the poller goes on to watch)
+// and c.tried (every tag requested up to there).
+func (c *vCase) waitFirstBlock(from int) bool {
+	n := c.node
 	wd := time.NewTimer(vWatchdog)
 	defer wd.Stop()
 	for {
 		n.mu.Lock()
-		k := len(n.tags)
+		log := append([]string{}, n.tagLog[from:]...)
 		n.mu.Unlock()
-		if k > 0 {
-			break
+		var tried []string
+		for _, x := range log {
+			tried = append(tried, x[:len(x)-1])
+			if strings.HasSuffix(x, "+") {
+				c.tag = x[:len(x)-1]
+				c.tried = vjoin(tried, ",")
+				return true
+			}
 		}
+		c.tried = "-"
 		select {
 		case <-n.wake:
 		case err := <-c.exitC:
@@ -673,17 +732,12 @@ func (c *vCase) start(gsErr bool) bool {
 			return false
 		}
 	}
-	n.mu.Lock()
-	tags := make([]string, 0, len(n.tags))
-	for k := range n.tags {
-		tags = append(tags, k)
-	}
-	n.mu.Unlock()
-	sort.Strings(tags)
-	c.tag = vjoin(tags, ",")
-	c.flushed = true // nothing has enabled the poller yet
-	c.lastPub = c.watched()
-	return true
+}
+
+func (c *vCase) tagLogMark() int {
+	c.node.mu.Lock()
+	defer c.node.mu.Unlock()
+	return len(c.node.tagLog)
 }
 
 func (c *vCase) stop() {
@@ -1077,7 +1131,7 @@ func (c *vCase) waitGoroutines(what string, cond func() bool) bool {
 // Barriers: the goroutines of the old incarnation have ended; the new incarnation has logged its guardian-set fetch (its
 // connector is in place); Run is parked in its final select (all its goroutines and subscriptions exist); the new block
 // poller has read its first block and is idle.
-func (c *vCase) opRestart(gsErr bool, pick func(vTxRef) vRcAns) {
+func (c *vCase) opRestart(gsErr bool, pe int, nn bool, pick func(vTxRef) vRcAns) {
 	mark := c.callMark()
 	ans := c.scriptAnswers(nil, pick)
 	was := c.exited
@@ -1085,10 +1139,13 @@ func (c *vCase) opRestart(gsErr bool, pick func(vTxRef) vRcAns) {
 	oldConn := c.w.ethConn
 	from := c.sink.len()
 	c.node.mu.Lock()
-	c.node.bnErrAll, c.node.bnErrLeft, c.node.bnNoNum = false, 0, false
+	// pe > 0: the first pe block queries of the new incarnation's poller fail (its first query is an RPC position of its own)
+	c.node.bnErrAll, c.node.bnErrLeft, c.node.bnNoNum = false, pe, nn
 	c.node.gsErr = gsErr
 	c.node.subCrit = ""
 	c.node.mu.Unlock()
+	tlm := c.tagLogMark()
+	c.tried = "-"
 	c.exited = ""
 	c.resume <- struct{}{}
 	ok := c.waitGoroutines("restart-old-goroutines", func() bool {
@@ -1104,6 +1161,7 @@ func (c *vCase) opRestart(gsErr bool, pick func(vTxRef) vRcAns) {
 		found, parked := c.pollerState()
 		return found && parked
 	})
+	ok = ok && c.waitFirstBlock(tlm)
 	if ok {
 		c.flushed = true // the new connector starts disabled
 		c.lastPub = c.watched()
@@ -1117,6 +1175,7 @@ func (c *vCase) opRestart(gsErr bool, pick func(vTxRef) vRcAns) {
 	c.node.mu.Lock()
 	sub := c.node.subCrit
 	c.node.gsErr = false
+	c.node.bnErrLeft = 0
 	c.node.mu.Unlock()
 	if sub == "" {
 		sub = "-"
@@ -1125,7 +1184,11 @@ func (c *vCase) opRestart(gsErr bool, pick func(vTxRef) vRcAns) {
 	if gsErr {
 		g = 1
 	}
-	c.emit(fmt.Sprintf("restart %s was=%s gserr=%d %s pe=0 ans=%s sub=%s %s", c.id, was, g, c.headsCanon(), ans, sub, c.results(mark)))
+	nnS := 0
+	if nn {
+		nnS = 1
+	}
+	c.emit(fmt.Sprintf("restart %s was=%s gserr=%d %s pe=%d nn=%d tried=%s ans=%s sub=%s %s", c.id, was, g, c.headsCanon(), pe, nnS, c.tried, ans, sub, c.results(mark)))
 }
 
 // ---- ops
@@ -1544,4 +1607,167 @@ func (c *vCase) opReobs(r vReobs, pick func(vTxRef) vRcAns) {
 	sort.Strings(hq)
 	c.emit(fmt.Sprintf("reobs %s tx=%s %s bnerr=%d nn=%d rc=%s rbt=%s rlogs=%s hq=%s %s pe=0 ans=%s %s", c.id, hex.EncodeToString(r.tx[:]),
 		before, be, nn, r.rc.canon(), r.bt.canon(), vjoin(logs, ";"), vjoin(hq, ","), c.headsCanon(), ans, c.results(mark)))
+}
+
+// ---- re-observation while the node changes branch
+
+// vReorg: one observation request during which the node's view of the chain changes: after `k` RPC requests of the
+// re-observation have been answered (k = 0: before the first one; k beyond the last one: after it) the transaction's receipt
+// becomes rcB (gone, in another block, failed, or unchanged) and the heads move to latB (up or down). Blocks stay retrievable by
+// hash on either branch, as on a real node.
+type vReorg struct {
+	tx       ethCommon.Hash
+	k        int
+	rcA, rcB vRcAns
+	btA, btB vBtAns
+	latB     uint64
+}
+
+// opReorgReobs runs one observation request in the node's step mode: every head / receipt / block-time request of the
+// re-observation goroutine parks at the node until the harness releases it, so the harness decides - and records - in which
+// state of the chain each request is answered (`seq`). Only usable while the block poller is switched off and idle (it would
+// issue head queries of its own). The end of the real request is recognised by the watcher's own "received observation request"
+// line for the sentinel request (written before the sentinel's first RPC request) or by the sentinel having been accepted.
+func (c *vCase) opReorgReobs(r vReorg, pick func(vTxRef) vRcAns) {
+	mark := c.callMark()
+	ans := c.scriptAnswers(nil, func(x vTxRef) vRcAns {
+		if x.tx == r.tx {
+			return r.rcA
+		}
+		return pick(x)
+	})
+	before := "b" + strings.ReplaceAll(c.headsCanon(), " ", " b")
+	n := c.node
+	n.mu.Lock()
+	n.receipts[r.tx] = r.rcA
+	n.receipts[vSentinelTx] = vRcAns{kind: "null"}
+	if r.rcB.kind == "r" {
+		n.blocks[r.rcB.bh] = r.btB
+	}
+	if r.rcA.kind == "r" {
+		n.blocks[r.rcA.bh] = r.btA
+	}
+	n.step = true
+	n.stepQ = nil
+	n.mu.Unlock()
+	from := c.logFrom
+	switched := false
+	doSwitch := func() {
+		if switched {
+			return
+		}
+		switched = true
+		n.mu.Lock()
+		n.receipts[r.tx] = r.rcB
+		n.mu.Unlock()
+		c.setHeads(r.latB)
+	}
+	stepOff := func() {
+		n.mu.Lock()
+		n.step = false
+		rest := n.stepQ
+		n.stepQ = nil
+		n.mu.Unlock()
+		for _, x := range rest {
+			close(x.rel)
+		}
+	}
+	if r.k == 0 {
+		doSwitch()
+	}
+	stop := make(chan struct{})
+	done := make(chan bool, 1)
+	go func() {
+		for _, tx := range []ethCommon.Hash{r.tx, vSentinelTx} {
+			tx := tx
+			select {
+			case c.obsC <- &gossipv1.ObservationRequest{ChainId: uint32(c.chain), TxHash: tx[:]}:
+			case <-stop:
+				done <- false
+				return
+			}
+		}
+		done <- true
+	}()
+	sent := vSentinelTx.Hex()
+	sentinelSeen := func() bool {
+		for _, e := range c.sink.snapshot(from) {
+			if e.msg == "received observation request" && e.f["tx_hash"] == sent {
+				return true
+			}
+		}
+		return false
+	}
+	var seq []string
+	served, inA := 0, 0
+	accepted := false
+	wd := time.NewTimer(vWatchdog)
+	defer wd.Stop()
+	for {
+		n.mu.Lock()
+		var sc *vStepCall
+		if len(n.stepQ) > 0 {
+			sc = n.stepQ[0]
+			n.stepQ = n.stepQ[1:]
+		}
+		n.mu.Unlock()
+		if sc != nil {
+			if accepted || sentinelSeen() {
+				// the first request of the sentinel: the real request is finished
+				doSwitch()
+				stepOff()
+				close(sc.rel)
+				break
+			}
+			if served == r.k {
+				doSwitch()
+			}
+			st := "a"
+			if switched {
+				st = "b"
+			} else {
+				inA++
+			}
+			seq = append(seq, sc.name+"/"+st)
+			served++
+			close(sc.rel)
+			continue
+		}
+		if accepted {
+			doSwitch()
+			stepOff()
+			break
+		}
+		select {
+		case <-n.wake:
+		case <-c.sink.wake:
+		case ok := <-done:
+			accepted = ok
+		case err := <-c.exitC:
+			c.exited = vExitKind(err)
+		case <-wd.C:
+			c.stuck = "rreobs-step"
+		}
+		if c.dead() {
+			close(stop)
+			doSwitch()
+			stepOff()
+			break
+		}
+	}
+	if !c.dead() {
+		// barrier: the sentinel is finished when, after its "received" entry, its failure has been logged
+		c.waitLogSeq(c.logFrom, func(e vEntry) bool {
+			return e.msg == "received observation request" && e.f["tx_hash"] == sent
+		}, func(e vEntry) bool {
+			return e.msg == "failed to process observation request" || e.msg == "failed to get block number"
+		})
+	}
+	c.settle()
+	logs := make([]string, len(r.rcA.logs))
+	for i, l := range r.rcA.logs {
+		logs[i] = vLogCanon(l)
+	}
+	c.emit(fmt.Sprintf("rreobs %s tx=%s %s k=%d sw=%d seq=%s rc=%s rbt=%s rlogs=%s rc2=%s rbt2=%s %s pe=0 ans=%s %s", c.id, hex.EncodeToString(r.tx[:]),
+		before, r.k, inA, vjoin(seq, ","), r.rcA.canon(), r.btA.canon(), vjoin(logs, ";"), r.rcB.canon(), r.btB.canon(), c.headsCanon(), ans, c.results(mark)))
 }
